@@ -2553,9 +2553,11 @@ fn build_agg_array(
             DataType::Float64 => {
                 let mut builder = Float64Builder::with_capacity(num_groups);
                 for states in groups.values() {
-                    let sum: f64 = states[agg_idx]
+                    // No non-NULL input (set absent or empty) => SUM is NULL.
+                    let sum: Option<f64> = states[agg_idx]
                         .distinct_set
                         .as_ref()
+                        .filter(|s| !s.is_empty())
                         .map(|s| {
                             s.iter()
                                 .map(|v| match v {
@@ -2565,9 +2567,8 @@ fn build_agg_array(
                                     _ => 0.0,
                                 })
                                 .sum()
-                        })
-                        .unwrap_or(0.0);
-                    builder.append_value(sum);
+                        });
+                    builder.append_option(sum);
                 }
                 return Ok(Arc::new(builder.finish()));
             }
@@ -2575,9 +2576,10 @@ fn build_agg_array(
                 // Int64 and other integer types
                 let mut builder = Int64Builder::with_capacity(num_groups);
                 for states in groups.values() {
-                    let sum: i64 = states[agg_idx]
+                    let sum: Option<i64> = states[agg_idx]
                         .distinct_set
                         .as_ref()
+                        .filter(|s| !s.is_empty())
                         .map(|s| {
                             s.iter()
                                 .map(|v| match v {
@@ -2587,9 +2589,8 @@ fn build_agg_array(
                                     _ => 0,
                                 })
                                 .sum()
-                        })
-                        .unwrap_or(0);
-                    builder.append_value(sum);
+                        });
+                    builder.append_option(sum);
                 }
                 return Ok(Arc::new(builder.finish()));
             }
